@@ -9,7 +9,7 @@
    atomically ([step]).  [reachable t0 fund allowed ops] is the state after the history. *)
 From Coq Require Import ZArith List Bool.
 Import ListNotations.
-From Osmo Require Import C06.Model C06.Proofs C06.ProofsAcc C06.ProofsRefs C06.ProofsQuery.
+From Osmo Require Import C06.Model C06.Proofs C06.ProofsAcc C06.ProofsRefs C06.ProofsQuery C06.ProofsCons C06.ProofsTime.
 Open Scope Z_scope.
 
 (* the lockup module account holds exactly the sum of all live locks' coins *)
@@ -61,6 +61,61 @@ Theorem C06_lock_iterator_before_time : forall t0 fund allowed ops t id, 0 < t0 
   exists l, In l (s_locks s) /\ l_id l = id /\ is_unlocking l = true /\ l_end l <= t.
 Proof. exact lock_iterator_before_time_exact. Qed.
 Print Assumptions C06_lock_iterator_before_time.
+
+(* conservation: for every ordinary account and denomination, liquid balance + coins of its own live locks stays what it
+   was funded with (a history contains no transfers other than locking and unlocking); one step and whole histories *)
+Theorem C06_conservation_step : forall s o a dn, Inv0 s -> op_sender_ok o -> a <> module_acc ->
+  wealth (fst (step s o)) a dn = wealth s a dn.
+Proof. exact step_conservation. Qed.
+Print Assumptions C06_conservation_step.
+Theorem C06_conservation : forall t0 fund allowed ops a dn, Forall op_sender_ok ops -> a <> module_acc ->
+  let s := run (init_state t0 fund allowed) ops in
+  s_bal s a dn + lsum (co a dn) (s_locks s) = fund a dn.
+Proof. exact conservation. Qed.
+Print Assumptions C06_conservation.
+
+(* owner only and not early: in any one operation after any history - except a force-unlock sent by a itself - the balance of
+   account a grows by at most the coins of a's own locks that are unlocking and whose end time is <= the block time.
+   (With conservation and module_balance: coins leave the module account only towards the owner of a matured lock.) *)
+Theorem C06_owner_only_and_not_early : forall t0 fund allowed ops o a dn, 0 < t0 -> Forall op_sender_ok ops -> op_sender_ok o ->
+  a <> module_acc -> (forall id dn0 amt, o <> OForce a id dn0 amt) ->
+  let s := reachable t0 fund allowed ops in
+  s_bal (fst (step s o)) a dn <= s_bal s a dn + matured_amount s a dn.
+Proof. exact not_early. Qed.
+Print Assumptions C06_owner_only_and_not_early.
+
+(* the exception is guarded: a force-unlock succeeds only for the lock's owner and only if the owner is on the allowed list *)
+Theorem C06_force_only_allowed : forall s a id dn amt s', handle s (OForce a id dn amt) = Ok s' ->
+  In a (s_allowed s) /\ exists l, get_lock (s_locks s) id = Some l /\ l_owner l = a.
+Proof. exact force_only_allowed. Qed.
+Print Assumptions C06_force_only_allowed.
+
+(* UnlockMaturedLock is refused while block time < end time *)
+Theorem C06_unlock_refused_early : forall s id l, get_lock (s_locks s) id = Some l -> s_now s < l_end l ->
+  exists e, unlock_matured_lock s id = Err e.
+Proof. exact unlock_refused_early. Qed.
+Print Assumptions C06_unlock_refused_early.
+
+(* begin-unlock of the whole lock: same id and coins, end time = block time + duration, nothing else changes *)
+Theorem C06_begin_unlock_sets_end_time : forall s o id dn amt s' l,
+  msg_begin_unlocking s o id dn amt = Ok s' -> get_lock (s_locks s) id = Some l -> is_partial dn amt l = false ->
+  l_owner l = o /\ is_unlocking l = false /\ s_last s' = s_last s /\ s_bal s' = s_bal s /\
+  forall i, get_lock (s_locks s') i = if id =? i then Some (with_end l (s_now s + l_dur l)) else get_lock (s_locks s) i.
+Proof. exact begin_full_spec. Qed.
+Print Assumptions C06_begin_unlock_sets_end_time.
+
+(* partial unlock splits the lock: sum of coins, owner and duration preserved, the new id is fresh, the split-off part ends at
+   block time + duration, balances and all other locks unchanged *)
+Theorem C06_split_preserves : forall s o id dn amt s' l, Inv0 s ->
+  msg_begin_unlocking s o id dn amt = Ok s' -> get_lock (s_locks s) id = Some l -> is_partial dn amt l = true ->
+  let id2 := s_last s + 1 in
+  let rest := with_amt l (l_amt l - amt) in
+  let part := mkLock id2 (l_owner l) (l_denom l) amt (l_dur l) (s_now s + l_dur l) (norm_rr (l_owner l) (l_rr l)) in
+  l_owner l = o /\ is_unlocking l = false /\ 0 < amt < l_amt l /\ l_amt rest + l_amt part = l_amt l /\
+  get_lock (s_locks s) id2 = None /\ s_last s' = id2 /\ s_bal s' = s_bal s /\
+  forall i, get_lock (s_locks s') i = if id2 =? i then Some part else if id =? i then Some rest else get_lock (s_locks s) i.
+Proof. exact split_preserves. Qed.
+Print Assumptions C06_split_preserves.
 
 (* non-vacuity: two owners, locks sharing a duration, add-to-existing, partial unlock (split), maturity, withdrawal,
    extension, partial force-unlock of an unlocking lock, end-block *)
